@@ -73,10 +73,10 @@ def build():
          ("before_stmt_re", r"let mut \w+ = (\w+);\s*\w+\.append\(&mut (\w+)\);", 1, "let ghost r_before = $1; let ghost s_before = $2; let ghost sig0 = $sig;")],
         rewrites=[("T-ITER", r"s\.resize_with\((?P<n>[^,]*), \|\| 0\);", r"crate::openssl::bn::resize_zero(&mut s, \g<n>);", None)],
         names={"sig": r"let (\w+) = EcdsaSig::sign\("})})
-    u.verify(K, "KeyPair::get_jwk_public_key", "crypto", props=["C15", "C05"], fns={"get_jwk_public_key": FnSpec(ret="r", sig="""
+    u.verify(K, "KeyPair::get_jwk_public_key", "crypto", props=["C15", "C05", "C04"], fns={"get_jwk_public_key": FnSpec(ret="r", sig="""
     requires self.wf(),
 """)})
-    u.verify(K, "KeyPair::get_rsa_jwk", "crypto", props=["C15", "C05"], fns={"get_rsa_jwk": FnSpec(ret="r", sig="""
+    u.verify(K, "KeyPair::get_rsa_jwk", "crypto", props=["C15", "C05", "C04"], fns={"get_rsa_jwk": FnSpec(ret="r", sig="""
     requires self.wf(), self.key_type is Rsa2048 || self.key_type is Rsa4096,
     ensures r matches Ok(j) ==> ({
         let e = crate::vb64::b64url(crate::openssl::rsa::rsa_e(self.inner_key.ident@));
@@ -84,9 +84,9 @@ def build():
         // RFC 7518 6.3 / RFC 7638 3.2: minimal-length big-endian e and n; thumbprint input has exactly e, kty, n
         if thumbprint { j.members@ =~= map!["e"@ => e, "kty"@ => "RSA"@, "n"@ => n] }
         else { j.members@ =~= map!["alg"@ => "RS256"@, "e"@ => e, "kty"@ => "RSA"@, "n"@ => n, "use"@ => "sig"@] }
-    }), //@C15.rsa_jwk_members,C05.thumbprint_input_of_the_account_key_is_the_rfc7638_form
+    }), //@C15.rsa_jwk_members,C05.thumbprint_input_of_the_account_key_is_the_rfc7638_form,C04.jwk_member_is_the_exact_public_key
 """, rewrites=[JSON, B64], at=[("before_tail", None, 1, "proof { reveal_with_fuel(crate::vjson::pairs_map, 8); }")])})
-    u.verify(K, "KeyPair::get_ecdsa_jwk", "crypto", props=["C15", "C05"], fns={"get_ecdsa_jwk": FnSpec(ret="r", sig="""
+    u.verify(K, "KeyPair::get_ecdsa_jwk", "crypto", props=["C15", "C05", "C04"], fns={"get_ecdsa_jwk": FnSpec(ret="r", sig="""
     requires self.wf(),
     ensures r matches Ok(j) ==> ({
         let sz = ec_size(self.key_type);
@@ -96,7 +96,7 @@ def build():
         &&& sz > 0
         &&& if thumbprint { j.members@ =~= map!["crv"@ => crv_name(self.key_type), "kty"@ => "EC"@, "x"@ => x, "y"@ => y] }
             else { j.members@ =~= map!["alg"@ => es_name(self.key_type), "crv"@ => crv_name(self.key_type), "kty"@ => "EC"@, "use"@ => "sig"@, "x"@ => x, "y"@ => y] }
-    }), //@C15.ec_jwk_members_fixed_width,C05.thumbprint_input_of_the_account_key_is_the_rfc7638_form
+    }), //@C15.ec_jwk_members_fixed_width,C05.thumbprint_input_of_the_account_key_is_the_rfc7638_form,C04.jwk_member_is_the_exact_public_key
 """, rewrites=[JSON, B64], at=[("before_tail", None, 1, "proof { reveal_with_fuel(crate::vjson::pairs_map, 8); }")])})
     u.macro(K, "get_key_type")
     for f in ["from_der", "from_pem"]:
